@@ -1,0 +1,24 @@
+//go:build verif
+
+package pathutil
+
+// Contracts for the gvc verifier (/verif). Comment-only; never compiled into
+// a normal build.
+
+// IsHFSDot (C26: .git and its HFS+ disguises are refused at any depth). The
+// code points it skips while comparing are exactly the ones HFS+ ignores
+// (spec_hfs_ignored, transcribed from git's next_hfs_char): the table the
+// function consults holds those sixteen and nothing else, and a rune is
+// skipped only when the table has it. (The decoding of the name into runes and
+// the letters of the needle are not modelled: coarse unit.)
+//gvc:func IsHFSDot
+//gvc:  props C26
+//gvc:  theory int
+//gvc:  opt coarse
+//gvc:  opt frame args
+//gvc:  loop 1 invariant pos: 0 <= i
+//gvc:  loop 1 step skipped: spec_hfs_ignored(runes[i - 1])
+//gvc:  loop 3 step skipped: spec_hfs_ignored(runes[i - 1])
+//gvc:  loop 4 step skipped: spec_hfs_ignored(runes[i - 1])
+//gvc:  ensures table: forall(r, 0, 1114112, has(hfsIgnoredCodepoints, r) == spec_hfs_ignored(r))
+//gvc:end
